@@ -913,7 +913,7 @@ def shrink(case):
 
 
 # ------------------------------------------------------------------ dev-only: line coverage of the anchored code
-# VERIF_COVERAGE=1 ./check C06 --no-coq   -> evidence/C06_coverage.json + a summary on stderr
+# VERIF_COVERAGE=1 ./check C06 --no-coq   -> evidence/dev/C06_coverage.json + a summary on stderr
 
 COVER_TARGETS = {
     'ombott/request_pkg/multipart.py': ['MatchTail', 'HeadersEaeter', 'BodyMarkuper', 'MultipartMarkup'],
@@ -979,7 +979,7 @@ def _cover_report():
             else:
                 missing.append([name, ln, linecache.getline(code.co_filename, ln).strip()])
     root = os.path.normpath(os.path.join(os.path.dirname(os.path.abspath(__file__)), '..', '..'))
-    with open(os.path.join(root, 'evidence', 'C06_coverage.json'), 'w') as f:
+    with open(os.path.join(root, 'evidence', 'dev', 'C06_coverage.json'), 'w') as f:
         json.dump(dict(total=total, reached=reached, missing=missing), f, indent=1)
     print('C06 coverage of anchored functions: %d/%d lines reached' % (reached, total), file=sys.stderr)
     for m in missing:
